@@ -161,6 +161,9 @@ func (c *Cluster) serveScan(rs *RS, sc *ServerConn, req *Request, p *pb.ScanRequ
 			return
 		}
 		callNo = 2
+		if !p.GetRenew() && !(p.GetCloseScanner() && p.GetNumberOfRows() == 0) {
+			c.Trace.Emit("scanCont", "scanner", int(scn.id))
+		}
 		if p.GetRenew() {
 			c.mu.Unlock()
 			c.Trace.Emit("scanRenew", "scanner", int(scn.id))
@@ -192,10 +195,12 @@ func (c *Cluster) serveScan(rs *RS, sc *ServerConn, req *Request, p *pb.ScanRequ
 		scn.rows = c.selectRowsLocked(r, meta, p.GetScan())
 		c.scanners[scn.id] = scn
 		rn := ""
+		rstart := []int{}
 		if r != nil {
 			rn = string(r.Name)
+			rstart = Bytes(r.Start)
 		}
-		c.Trace.Emit("scanOpen", "scanner", int(scn.id), "region", rn, "meta", meta, "start", Bytes(p.GetScan().GetStartRow()),
+		c.Trace.Emit("scanOpen", "scanner", int(scn.id), "region", rn, "regionStart", rstart, "meta", meta, "start", Bytes(p.GetScan().GetStartRow()),
 			"stop", Bytes(p.GetScan().GetStopRow()), "reversed", scn.reversed, "rows", len(scn.rows), "addr", rs.Addr)
 		if meta {
 			c.Trace.Emit("metaScan", "start", Bytes(p.GetScan().GetStartRow()), "stop", Bytes(p.GetScan().GetStopRow()), "reversed", scn.reversed)
@@ -212,7 +217,11 @@ func (c *Cluster) serveScan(rs *RS, sc *ServerConn, req *Request, p *pb.ScanRequ
 		cut = c.ScanChunker(ctx)
 	}
 	if cut.Exc != "" {
+		if callNo == 1 {
+			delete(c.scanners, scn.id) // the open failed: no region scanner exists
+		}
 		c.mu.Unlock()
+		c.Trace.Emit("scanExc", "scanner", int(scn.id), "class", cut.Exc)
 		c.sendExc(sc, req, cut.Exc)
 		return
 	}
@@ -224,7 +233,7 @@ func (c *Cluster) serveScan(rs *RS, sc *ServerConn, req *Request, p *pb.ScanRequ
 	}
 	resp := &pb.ScanResponse{ScannerId: proto.Uint64(scn.id)}
 	var cb []byte
-	var chunk []map[string]any
+	chunk := []map[string]any{}
 	for e := 0; e < cut.Entries; e++ {
 		row := scn.rows[scn.pos]
 		cells := row.Cells[scn.cellsOut:]
